@@ -112,6 +112,10 @@ func c39Render(p string, idx int, s c39Snip) string {
 		return "var " + n + "m = [&a=" + A + " &b=" + B + "]; set " + n + "m[c] = " + C + "; put (count $" + n + "m) $" + n + "m[c]; keys $" + n + "m | order"
 	case "list":
 		return "var " + n + "l = [(range " + A + ")]; set " + n + "l = (conj $" + n + "l " + B + "); put (count $" + n + "l) $" + n + "l[-1]"
+	case "bg":
+		// background jobs (they output nothing); the interpreter's count of
+		// running background jobs is shared state
+		return "nop &\nnop &\nnop &\nput " + n + "bg"
 	case "peach":
 		return "put (+ (peach {|x| put (* $x " + C + ") } [(range " + A + ")]))"
 	case "peachb":
@@ -445,6 +449,22 @@ func c39CheckHere(c c39Case) error {
 			return fmt.Errorf("after all goroutines finished, the globals of goroutine %d read %s, sequentially %s", g, fin, wantFin[g])
 		}
 	}
+	// every background job ends by itself; once they have, the interpreter's
+	// count of them is 0 in every sequential order
+	bg := ""
+	for i := 0; i < 500; i++ {
+		r := elv.Run(ev, "put $num-bg-jobs")
+		if r.Err != nil || len(r.Values) != 1 {
+			return fmt.Errorf("cannot read $num-bg-jobs: %v %s", r.Err, elv.Reprs(r.Values))
+		}
+		if bg = fmt.Sprint(r.Values[0]); bg == "0" {
+			break
+		}
+		time.Sleep(10 * time.Millisecond)
+	}
+	if bg != "0" {
+		return fmt.Errorf("after all evaluations and all background jobs finished, $num-bg-jobs stays at %s (lost update of the shared counter)", bg)
+	}
 	return nil
 }
 
@@ -464,7 +484,7 @@ func c39FinalOf(ev *eval.Evaler, g int, ops []c39Op) string {
 // ---- generator ------------------------------------------------------------------------------------
 
 var c39SnipKinds = []string{"arith", "loop", "fn", "map", "list", "peach", "peachb", "runpar", "pipe", "bytes",
-	"use", "use", "use", "uselocal", "uselocal", "closure", "tmp", "del", "try", "str", "eval", "shared", "sharedset"}
+	"use", "use", "use", "uselocal", "uselocal", "closure", "tmp", "del", "try", "str", "eval", "shared", "sharedset", "bg", "bg"}
 
 func c39GenSnip(t *rapid.T) c39Snip {
 	return c39Snip{
